@@ -29,7 +29,7 @@ RULE = ('sweep shards: for each field every value of its documented range x corn
         '(thorough: all 2**k corners, quick: 4 of them - all-min, all-max, two alternating patterns); each tuple is one case per calling convention (array call, scalar '
         'call, scalar call with run2d as decimal string and as vN_M_P, unwrap from integer / U / S arrays with every option). '
         'reject shards: every value at distance 1, 2 and 2**k (k<=62) outside each range and negative values x corners x scalar / '
-        'array position and narrower dtype that holds the values; every length-mismatch pattern; line+index. order shards: per field ALL arrays of length 1..4 (thorough 1..5) over a 3-value alphabet (min, typical, max; a,b,a / a,a,b / a,b,b,a included) with the other fields constant, array call vs oracle vs one scalar call per element, and the id arrays through every unwrap form/option. Every array call is made twice on the same argument objects: arguments must be bit-identical afterwards and the second result equal (one extra case per vector call). A case is non-trivial when at least two fields (camcol not '
+        'array position and narrower dtype that holds the values; every length-mismatch pattern; line+index. order shards: per field ALL arrays of length 1..4 (thorough 1..5) over a 3-value alphabet (min, typical, max; a,b,a / a,a,b / a,b,b,a included) with the other fields constant, array call vs oracle vs one scalar call per element, and the id arrays through every unwrap form/option. layouts: array calls are repeated with big-endian dtypes, non-contiguous strided views, read-only arrays and (single element) 0-d arrays; one zero-length shard (all four functions, every dtype/layout, must return an empty result). Every array call is made twice on the same argument objects: arguments must be bit-identical afterwards and the second result equal (one extra case per vector call). A case is non-trivial when at least two fields (camcol not '
         'counted) are non-zero, or when a rejection is demanded. Distinct = distinct (convention, packed id) resp. distinct argument tuples.')
 ASSUMPTIONS = ['input arrays are integer arrays: int64 and the narrower/unsigned dtype profiles i4, i2 (int16 where the documented range fits, else int32), u2 (uint16/uint32), u4, u8, one profile for all columns of a call; numpy scalars, floats, bools are not generated',
                'numeric values are int64-representable (|v| <= 2**62); Python ints beyond int64 are outside the bound',
@@ -184,8 +184,31 @@ def fits(profile, args):
     return True
 
 
-def _arg(v, name=None, profile='i8'):
-    return np.array(v, dtype=field_dtype(profile, name) if name else np.int64) if isinstance(v, list) else v
+LAYOUTS = ('native', 'be', 'strided', 'readonly', '0d')
+
+
+def lay(a, layout):
+    """The same values in another memory layout: big-endian dtype (what astropy delivers for FITS columns), a
+    non-contiguous strided view, a read-only array, a 0-d array (single element only)."""
+    if layout == 'native':
+        return a
+    if layout == 'be':
+        return a.astype(a.dtype.newbyteorder('>'))
+    if layout == 'strided':
+        return np.repeat(a, 2)[::2]
+    if layout == 'readonly':
+        b = a.copy()
+        b.setflags(write=False)
+        return b
+    if layout == '0d':
+        return a.reshape(())
+    raise ValueError(layout)
+
+
+def _arg(v, name=None, profile='i8', layout='native'):
+    if not isinstance(v, list):
+        return v
+    return lay(np.array(v, dtype=field_dtype(profile, name) if name else np.int64), layout)
 
 
 def _snapshot(kw):
@@ -280,9 +303,14 @@ def check_pack(case):
     A failure that disappears when the same arrays are given as int64 is reported under a dtype-specific signature."""
     res = _check_pack(case)
     prof = case.get('dtype', 'i8')
-    if res and prof != 'i8':
-        if not _check_pack(dict(case, dtype='i8')):
+    layout = case.get('layout', 'native')
+    if res:
+        td = prof != 'i8' and not _check_pack(dict(case, dtype='i8'))
+        tl = layout != 'native' and not _check_pack(dict(case, layout='native'))
+        if td:
             res = [(_dtype_sig(sig, prof), msg) for sig, msg in res]
+        if tl:
+            res = [(sig + ':layout-' + layout, msg) for sig, msg in res]
     n = max([len(v) for v in case['args'].values() if isinstance(v, list)] or [0])
     if res and n > 1 and all(_len(v) == n for v in case['args'].values() if isinstance(v, list)):
         # computed trigger: every element alone (single-element arrays, same dtype) is handled correctly
@@ -306,7 +334,7 @@ def _check_pack(case):
     if exp[0] == 'dontcare':
         return None
     prof = case.get('dtype', 'i8')
-    kw0 = {k: _arg(v, k, prof) for k, v in args.items()}
+    kw0 = {k: _arg(v, k, prof, case.get('layout', 'native')) for k, v in args.items()}
     snap = _snapshot(kw0)
 
     def call():
@@ -355,13 +383,18 @@ def _classify_pack(fn, name, args, exp, r, exc):
         return []
     if exp[0] == 'ok':
         if exc is not None:
-            return [(trig('%s:in-range-refused:%s' % (name, type(exc).__name__)), '%r on %s' % (exc, args))]
+            zl = ':zero-length-arrays' if not exp[1] else ''
+            return [(trig('%s:in-range-refused:%s%s' % (name, type(exc).__name__, zl)), '%r on %s' % (exc, args))]
         try:
             got = _intlist(r)
         except Exception as e:  # noqa: BLE001
             return [('%s:result-not-integer' % name, repr(e))]
         if len(got) != len(exp[1]):
             return [('%s:result-length' % name, 'got %d ids, expected %d' % (len(got), len(exp[1])))]
+        if not exp[1]:
+            want_dt = np.int64 if fn == 'objid' else np.uint64      # documented return types
+            if np.asarray(r).dtype != want_dt:
+                return [('%s:empty-call:result-dtype' % name, 'zero-length call returned dtype %s' % np.asarray(r).dtype)]
         return wrong_value_sig(fn, args, got, exp[1])
     _r, kind, fld = exp
     if exc is None:
@@ -371,17 +404,30 @@ def _classify_pack(fn, name, args, exp, r, exc):
     return []
 
 
-def _idarray(ids, form, signed):
+def _idarray(ids, form, signed, layout='native'):
     if form == 'int':
-        return np.array(ids, dtype=np.int64 if signed else np.uint64)
-    a = np.array([str(i) for i in ids])
-    return a if form == 'U' else a.astype('S')
+        return lay(np.array(ids, dtype=np.int64 if signed else np.uint64), layout)
+    a = np.array([str(i) for i in ids], dtype='U%d' % max([len(str(i)) for i in ids] or [20]))
+    return lay(a if form == 'U' else a.astype('S'), layout)
+
+
+def unwrap_layouts(form, n=None):
+    """Layouts applicable to an id array of the given form (bytes strings have no byte order; 0-d needs one element)."""
+    out = ['native'] + (['be'] if form != 'S' else []) + ['strided', 'readonly']
+    return out + (['0d'] if n == 1 else [])
+
+
+def _col(u, c):
+    return np.atleast_1d(u[c]).tolist()
 
 
 def check_unwrap(case):
     """One unwrap call on explicit ids (made twice on the same array); list of (sig, msg).  A wrong field of a
     multi-element array whose elements are all unwrapped correctly one at a time gets a computed trigger suffix."""
     res = _check_unwrap(case)
+    layout = case.get('layout', 'native')
+    if res and layout != 'native' and not _check_unwrap(dict(case, layout='native')):
+        res = [(sig + ':layout-' + layout, msg) for sig, msg in res]
     if res and len(case['ids']) > 1 and all(_check_unwrap(dict(case, ids=[i])) == [] for i in case['ids']):
         res = [(sig + ':multi-element-array-only', msg) for sig, msg in res]
     return res
@@ -393,7 +439,7 @@ def _check_unwrap(case):
     form = case['form']
     if fn == 'unwrap_objid':
         from pydl.photoop.photoobj import unwrap_objid
-        a = _idarray(ids, form, True)
+        a = _idarray(ids, form, True, case.get('layout', 'native'))
         call = lambda: unwrap_objid(a)  # noqa: E731
         before = a.copy()
         try:
@@ -403,7 +449,7 @@ def _check_unwrap(case):
         want = {OBJ_COL[n]: [o_unobjid(i)[n] for i in ids] for n in OBJ_NAMES}
     else:
         from pydl.pydlutils.sdss import unwrap_specobjid
-        a = _idarray(ids, form, False)
+        a = _idarray(ids, form, False, case.get('layout', 'native'))
         ri, li = bool(case.get('run2d_integer')), bool(case.get('specLineIndex'))
         call = lambda: unwrap_specobjid(a, run2d_integer=ri, specLineIndex=li)  # noqa: E731
         before = a.copy()
@@ -421,14 +467,14 @@ def _check_unwrap(case):
         if u.shape != before.shape:
             return [('%s:result-shape' % fn, 'got %s for input %s' % (u.shape, before.shape))] + side
         for col, w in want.items():
-            if u[col].tolist() != w:
+            if _col(u, col) != w:
                 wrong.append(col)
     except Exception as e:  # noqa: BLE001
         return [('%s:result-columns:%s' % (fn, type(e).__name__), repr(e))] + side
     if wrong:
         return [(unwrap_sig(fn, wrong), 'ids %s form %s%s: got %s expected %s'
                  % (ids[:5], form, '' if fn == 'unwrap_objid' else ' run2d_integer=%s specLineIndex=%s' % (ri, li),
-                    [u[c].tolist()[:5] for c in wrong], [want[c][:5] for c in wrong]))] + side
+                    [_col(u, c)[:5] for c in wrong], [want[c][:5] for c in wrong]))] + side
     return side
 
 
@@ -441,13 +487,13 @@ def _unwrap_side(fn, form, a, before, u, call, cols):
                     'caller array %s... became %s... after the call' % (before.ravel()[:2].tolist(), a.ravel()[:2].tolist())))
     try:
         u2 = call()
-        same = u2.shape == u.shape and all(u2[c].tolist() == u[c].tolist() for c in cols)
+        same = u2.shape == u.shape and all(_col(u2, c) == _col(u, c) for c in cols)
         if not same:
-            out.append(('%s:second-call-differs:form-%s' % (fn, form),
-                        'second call on the same array object: first %s second %s' % (u[:2].tolist(), u2[:2].tolist())))
+            out.append(('%s:second-call-differs:form-%s' % (fn, form), 'second call on the same array object: first %s second %s'
+                        % (np.atleast_1d(u)[:2].tolist(), np.atleast_1d(u2)[:2].tolist())))
     except Exception as e:  # noqa: BLE001
         out.append(('%s:second-call-differs:form-%s' % (fn, form), 'second call on the same array object raised %r' % (e,)))
-    if out and (a.dtype == before.dtype and a.shape == before.shape):
+    if out and (a.dtype == before.dtype and a.shape == before.shape) and a.flags.writeable:
         a[...] = before
     return out
 
@@ -509,6 +555,7 @@ def tasks(tier):
     t.append({'k': 'spec-run2d-str', 'all': T})
     t.append({'k': 'spec-mixed'})
     t.append({'k': 'obj-defaults'})
+    t.append({'k': 'empty'})
     for fn, names in (('objid', OBJ_NAMES), ('specobjid', ('plate', 'fiber', 'mjd', 'run2d', 'line', 'index'))):
         for name in names:
             for base in (('min', 'mid', 'max') if T else ('min', 'mid')):
@@ -553,7 +600,11 @@ def _bulk(acc, hashes, nontriv, n, bad_idx, label):
         acc.bulk(hashes[bad], nontriv[bad], 'bad:' + label)
 
 
-def _vector_pack(fn, call, exp, mk_case, arrays, prof='i8', bad_i8=None):
+PACK_COMBOS = (('i8', 'native'), ('i4', 'native'), ('i2', 'native'), ('u2', 'native'), ('u4', 'native'), ('u8', 'native'),
+               ('i8', 'be'), ('i8', 'strided'), ('i8', 'readonly'), ('i4', 'be'), ('u8', 'be'))
+
+
+def _vector_pack(fn, call, exp, mk_case, arrays, prof, layout, bads):
     """{index: derived [(sig, msg)] or None} for the elements of a vector packing call that disagree with exp, a message,
     and the vector-level side findings (argument arrays modified / second call on the same objects differs)."""
     name = 'sdss_objid' if fn == 'objid' else 'sdss_specobjid'
@@ -573,6 +624,7 @@ def _vector_pack(fn, call, exp, mk_case, arrays, prof='i8', bad_i8=None):
         r2, exc2 = run()
         if not _same_outcome(r, exc, r2, exc2):
             side.append(('%s:second-call-differs' % name, 'second vector call on the same argument objects differs'))
+    bads[(prof, layout)] = set(range(len(exp)))
     if exc is not None:
         return {i: None for i in range(len(exp))}, repr(exc), side
     try:
@@ -585,9 +637,13 @@ def _vector_pack(fn, call, exp, mk_case, arrays, prof='i8', bad_i8=None):
     for i, (g, e) in enumerate(zip(got, exp)):
         if g != e:
             d = wrong_value_sig(fn, mk_case(i)['args'], [g], [e])
-            if prof != 'i8' and (bad_i8 is None or i not in bad_i8):
+            # same computed triggers as check_pack: right with int64 arrays (same layout) / right in the native layout (same dtype)
+            if prof != 'i8' and i not in bads.get(('i8', layout), ()):
                 d = [(_dtype_sig(sig, prof), msg) for sig, msg in d]
+            if layout != 'native' and i not in bads.get((prof, 'native'), ()):
+                d = [(sig + ':layout-' + layout, msg) for sig, msg in d]
             bad[i] = d
+    bads[(prof, layout)] = set(bad)
     return bad, 'wrong values at %d positions' % len(bad), side
 
 
@@ -610,7 +666,9 @@ def _side(acc, task, label, side, mk_case, n):
             acc.violation(sig + ':vector-call-only', {'fn': 'vector', 'task': task}, msg)
 
 
-def _vector_unwrap(fn, call, want, arr, form):
+def _vector_unwrap(fn, call, want, arr, form, layout='native', native_bad=None):
+    """Like _vector_pack for an unwrap call; derived signatures of a non-native layout get the `:layout-` suffix when the
+    same element was right in the native layout (native_bad is filled by the native call and read by the others)."""
     shape = arr.shape
     before = arr.copy()
     try:
@@ -628,8 +686,13 @@ def _vector_unwrap(fn, call, want, arr, form):
                 for i, (x, y) in enumerate(zip(g, w)):
                     if x != y:
                         cols.setdefault(i, []).append((col, x, y))
-        bad = {i: [(unwrap_sig(fn, [c for c, _x, _y in v]), 'vector call, element %d: got/expected %s' % (i, v))]
+        bad = {i: [(unwrap_sig(fn, [c for c, _x, _y in v])
+                    + (':layout-' + layout if layout != 'native' and i not in (native_bad or ()) else ''),
+                    'vector call, element %d: got/expected %s' % (i, v))]
                for i, v in cols.items()}
+        if layout == 'native' and native_bad is not None:
+            native_bad.clear()
+            native_bad.update(bad)
         return bad, 'wrong fields at %d positions' % len(bad), side
     except Exception as e:  # noqa: BLE001
         return {i: None for i in range(shape[0])}, repr(e), side
@@ -661,28 +724,29 @@ def obj_sweep(acc, task):
     nz = sum((np.array(cols[name]) != 0).astype(int) for name in OBJ_NAMES if name != 'camcol')
     nontriv = nz >= 2
 
-    def single(conv, prof='i8'):
+    def single(conv, prof='i8', layout='native'):
         def mk(i):
             t = {name: cols[name][i] for name in OBJ_NAMES}
             case = {'fn': 'objid', 'args': {k: ([v] if conv == 'array' else v) for k, v in t.items()}}
             if prof != 'i8':
                 case['dtype'] = prof
+            if layout != 'native':
+                case['layout'] = layout
             return case
         return mk
-    # array calls, one per integer dtype profile
-    bad_i8 = None
-    for pi, prof in enumerate(PROFILES):
-        arr = {name: np.array(cols[name], dtype=field_dtype(prof, name)) for name in OBJ_NAMES}
+    # array calls, one per integer dtype profile / memory layout
+    bads = {}
+    for pi, (prof, layout) in enumerate(PACK_COMBOS):
+        arr = {name: lay(np.array(cols[name], dtype=field_dtype(prof, name)), layout) for name in OBJ_NAMES}
+        tagp = prof + ('' if layout == 'native' else '-' + layout)
         bad, msg, side = _vector_pack('objid', lambda arr=arr: S.sdss_objid(arr['run'], arr['camcol'], arr['field'], arr['objnum'],
                                                                            rerun=arr['rerun'], skyversion=arr['skyversion'],
                                                                            firstfield=arr['firstfield']),
-                                      exp, single('array', prof), arr, prof, bad_i8)
-        if prof == 'i8':
-            bad_i8 = set(bad)
-        _localise(acc, task, 'sdss_objid:array-' + prof, bad, single('array', prof), msg)
-        _side(acc, task, 'objid:array-' + prof, side, single('array', prof), n)
-        _bulk(acc, base + np.uint64(1 if prof == 'i8' else 40 + pi), nontriv, n, bad,
-              'objid:array%s:sweep-%s' % ('' if prof == 'i8' else '-' + prof, f))
+                                      exp, single('array', prof, layout), arr, prof, layout, bads)
+        _localise(acc, task, 'sdss_objid:array-' + tagp, bad, single('array', prof, layout), msg)
+        _side(acc, task, 'objid:array-' + tagp, side, single('array', prof, layout), n)
+        _bulk(acc, base + np.uint64(1 if tagp == 'i8' else 40 + pi), nontriv, n, bad,
+              'objid:array%s:sweep-%s' % ('' if tagp == 'i8' else '-' + tagp, f))
     # scalar calls
     bad = []
     c = [cols[name] for name in ('run', 'camcol', 'field', 'objnum', 'rerun', 'skyversion', 'firstfield')]
@@ -698,13 +762,20 @@ def obj_sweep(acc, task):
     _bulk(acc, base + np.uint64(2), nontriv, n, bad, 'objid:scalar:sweep-' + f)
     # unwrap from int64 / decimal strings
     want = {OBJ_COL[name]: cols[name] for name in OBJ_NAMES}
-    for k, form in enumerate(('int', 'U', 'S')):
-        a = _idarray(exp, form, True)
-        mk = lambda i, form=form: {'fn': 'unwrap_objid', 'ids': [exp[i]], 'form': form}  # noqa: E731
-        bad, msg, side = _vector_unwrap('unwrap_objid', lambda a=a: unwrap_objid(a), want, a, form)
-        _localise(acc, task, 'unwrap_objid:form-' + form, bad, mk, msg)
-        _side(acc, task, 'unwrap_objid:' + form, side, mk, n)
-        _bulk(acc, base + np.uint64(3 + k), nontriv, n, bad, 'unwrap_objid:%s:sweep-%s' % (form, f))
+    k = 0
+    for form in ('int', 'U', 'S'):
+        native_bad = set()
+        for layout in unwrap_layouts(form):
+            a = _idarray(exp, form, True, layout)
+            mk = lambda i, form=form, layout=layout: dict({'fn': 'unwrap_objid', 'ids': [exp[i]], 'form': form},  # noqa: E731
+                                                          **({} if layout == 'native' else {'layout': layout}))
+            bad, msg, side = _vector_unwrap('unwrap_objid', lambda a=a: unwrap_objid(a), want, a, form, layout, native_bad)
+            tagf = form + ('' if layout == 'native' else '-' + layout)
+            _localise(acc, task, 'unwrap_objid:form-' + tagf, bad, mk, msg)
+            _side(acc, task, 'unwrap_objid:' + tagf, side, mk, n)
+            _bulk(acc, base + np.uint64((3 + k) if k < 3 and layout == 'native' else 80 + k), nontriv, n, bad,
+                  'unwrap_objid:%s:sweep-%s' % (tagf, f))
+            k += 1
 
 
 def spec_sweep(acc, task):
@@ -729,7 +800,7 @@ def spec_sweep(acc, task):
         nz = sum((np.array(cols[name]) != (50000 if name == 'mjd' else 0)).astype(int) for name in SPEC_NAMES)
         nontriv = nz >= 2
 
-        def single(conv, prof='i8', kind=kind, cols=cols):
+        def single(conv, prof='i8', layout='native', kind=kind, cols=cols):
             def mk(i):
                 a = {name: cols[name][i] for name in ('plate', 'fiber', 'mjd', 'run2d')}
                 if kind != 'none':
@@ -743,23 +814,24 @@ def spec_sweep(acc, task):
                 case = {'fn': 'specobjid', 'args': a}
                 if prof != 'i8':
                     case['dtype'] = prof
+                if layout != 'native':
+                    case['layout'] = layout
                 return case
             return mk
-        bad_i8 = None
-        for pi, prof in enumerate(PROFILES):
-            arr = {name: np.array(cols[name], dtype=field_dtype(prof, name)) for name in SPEC_NAMES}
+        bads = {}
+        for pi, (prof, layout) in enumerate(PACK_COMBOS):
+            arr = {name: lay(np.array(cols[name], dtype=field_dtype(prof, name)), layout) for name in SPEC_NAMES}
             lowkw = {} if kind == 'none' else {kind: arr['low']}
             watched = {k: v for k, v in arr.items() if k != 'low' or kind != 'none'}
+            tagp = prof + ('' if layout == 'native' else '-' + layout)
             bad, msg, side = _vector_pack('specobjid',
                                           lambda arr=arr, lowkw=lowkw: S.sdss_specobjid(arr['plate'], arr['fiber'], arr['mjd'],
                                                                                         arr['run2d'], **lowkw),
-                                          exp, single('array', prof), watched, prof, bad_i8)
-            if prof == 'i8':
-                bad_i8 = set(bad)
-            _localise(acc, task, 'sdss_specobjid:array-' + prof, bad, single('array', prof), msg)
-            _side(acc, task, 'specobjid:array-%s:%s' % (prof, kind), side, single('array', prof), n)
-            _bulk(acc, base + np.uint64(1 if prof == 'i8' else 40 + pi), nontriv, n, bad,
-                  'specobjid:array%s:%s:sweep-%s' % ('' if prof == 'i8' else '-' + prof, kind, f))
+                                          exp, single('array', prof, layout), watched, prof, layout, bads)
+            _localise(acc, task, 'sdss_specobjid:array-' + tagp, bad, single('array', prof, layout), msg)
+            _side(acc, task, 'specobjid:array-%s:%s' % (tagp, kind), side, single('array', prof, layout), n)
+            _bulk(acc, base + np.uint64(1 if tagp == 'i8' else 40 + pi), nontriv, n, bad,
+                  'specobjid:array%s:%s:sweep-%s' % ('' if tagp == 'i8' else '-' + tagp, kind, f))
         fn = S.sdss_specobjid
         P, Q, M, R, L = [cols[name] for name in SPEC_NAMES]
         for ci, conv in enumerate(('int', 'dec', 'v')):
@@ -781,27 +853,33 @@ def spec_sweep(acc, task):
                       single('scalar' if conv == 'int' else conv), 'scalar loop')
             _bulk(acc, base + np.uint64(2 + ci), nontriv, n, bad, 'specobjid:scalar-run2d-%s:%s:sweep-%s' % (conv, kind, f))
         k = 5
+        vR = [vstring(r) for r in R]
         for form in ('int', 'U', 'S'):
-            a = _idarray(exp, form, False)
-            for ri in (False, True):
-                for li in (False, True):
-                    want = {'plate': P, 'fiber': Q, 'mjd': M, 'run2d': R if ri else [vstring(r) for r in R],
-                            ('index' if li else 'line'): L}
-                    mk = lambda i, form=form, ri=ri, li=li, exp=exp: {'fn': 'unwrap_specobjid', 'ids': [exp[i]],  # noqa: E731
-                                                                      'form': form, 'run2d_integer': ri, 'specLineIndex': li}
+            native_bad = {}
+            for layout in unwrap_layouts(form):
+                a = _idarray(exp, form, False, layout)
+                # every option combination in the native layout; the other layouts with both options off and both on
+                for ri, li in (((False, False), (False, True), (True, False), (True, True)) if layout == 'native'
+                               else ((False, False), (True, True))):
+                    want = {'plate': P, 'fiber': Q, 'mjd': M, 'run2d': R if ri else vR, ('index' if li else 'line'): L}
+                    mk = lambda i, form=form, ri=ri, li=li, exp=exp, layout=layout: dict(  # noqa: E731
+                        {'fn': 'unwrap_specobjid', 'ids': [exp[i]], 'form': form, 'run2d_integer': ri, 'specLineIndex': li},
+                        **({} if layout == 'native' else {'layout': layout}))
+                    nb = native_bad.setdefault((ri, li), set())
                     bad, msg, side = _vector_unwrap('unwrap_specobjid',
                                                     lambda a=a, ri=ri, li=li: S.unwrap_specobjid(a, run2d_integer=ri, specLineIndex=li),
-                                                    want, a, form)
-                    _localise(acc, task, 'unwrap_specobjid:form-' + form, bad, mk, msg)
-                    _side(acc, task, 'unwrap_specobjid:%s:%s:%s:%s' % (form, ri, li, kind), side, mk, n)
+                                                    want, a, form, layout, nb)
+                    tagf = form + ('' if layout == 'native' else '-' + layout)
+                    _localise(acc, task, 'unwrap_specobjid:form-' + tagf, bad, mk, msg)
+                    _side(acc, task, 'unwrap_specobjid:%s:%s:%s:%s' % (tagf, ri, li, kind), side, mk, n)
                     _bulk(acc, base + np.uint64(k), nontriv, n, bad,
-                          'unwrap_specobjid:%s:%s%s:sweep-%s' % (form, 'run2d-int' if ri else 'run2d-str', ':index' if li else '', f))
+                          'unwrap_specobjid:%s:%s%s:sweep-%s' % (tagf, 'run2d-int' if ri else 'run2d-str', ':index' if li else '', f))
                     k += 1
 
 
 # ------------------------------------------------------------------ individually enumerated cases
 def _one(acc, case):
-    key = (case['fn'], json.dumps(case.get('args', case.get('ids')), sort_keys=True), case.get('form'), case.get('dtype'))
+    key = (case['fn'], json.dumps(case.get('args', case.get('ids')), sort_keys=True), case.get('form'), case.get('dtype'), case.get('layout'))
     if case['fn'].startswith('unwrap'):
         key = key + (case.get('run2d_integer'), case.get('specLineIndex'))
     res = check_case(case)
@@ -815,12 +893,15 @@ def _one(acc, case):
         return
     if case['fn'].startswith('unwrap'):
         acc.case(key, True,
-                 'ok:%s:%s:%s' % (case['fn'], case['form'], case.get('tag', 'value')), sample=case)
+                 'ok:%s:%s%s:%s' % (case['fn'], case['form'], '-' + case['layout'] if case.get('layout') else '', case.get('tag', 'value')),
+                 sample=case)
         return
     exp = expect_objid(case['args']) if case['fn'] == 'objid' else expect_specid(case['args'])
     conv = 'array' if any(isinstance(v, list) for v in case['args'].values()) else 'scalar'
     if case.get('dtype'):
         conv += '-' + case['dtype']
+    if case.get('layout'):
+        conv += '-' + case['layout']
     if exp[0] == 'ok':
         out = 'ok:%s:%s:%s' % (case['fn'], conv, case.get('tag', 'value'))
     elif exp[0] == 'either':
@@ -1015,21 +1096,59 @@ def order_task(acc, task):
             for arr in itertools.product(alpha, repeat=n):
                 args = {name: [v] * n for name, v in const.items()}
                 args[f] = list(arr)
-                for prof in ('i8', 'i4'):
+                for prof, layout in PACK_COMBOS + ((('i8', '0d'), ('i4', '0d')) if n == 1 else ()):
+                    if prof not in ('i8', 'i4'):
+                        continue
                     case = {'fn': fn, 'args': args, 'tag': 'order'}
                     if prof != 'i8':
                         case['dtype'] = prof
+                    if layout != 'native':
+                        case['layout'] = layout
                     _one(acc, case)
                 exp = expect_objid(args) if fn == 'objid' else expect_specid(args)
                 ids = exp[1]
                 for form in ('int', 'U', 'S'):
-                    if fn == 'objid':
-                        _one(acc, {'fn': 'unwrap_objid', 'ids': ids, 'form': form, 'tag': 'order'})
-                    else:
-                        for ri in (False, True):
-                            for li in (False, True):
-                                _one(acc, {'fn': 'unwrap_specobjid', 'ids': ids, 'form': form, 'run2d_integer': ri,
-                                           'specLineIndex': li, 'tag': 'order'})
+                    for layout in unwrap_layouts(form, n):
+                        extra = {} if layout == 'native' else {'layout': layout}
+                        if fn == 'objid':
+                            _one(acc, dict({'fn': 'unwrap_objid', 'ids': ids, 'form': form, 'tag': 'order'}, **extra))
+                        else:
+                            for ri in (False, True):
+                                for li in (False, True):
+                                    _one(acc, dict({'fn': 'unwrap_specobjid', 'ids': ids, 'form': form, 'run2d_integer': ri,
+                                                    'specLineIndex': li, 'tag': 'order'}, **extra))
+
+
+def empty_task(acc):
+    """Zero-length array calls (a selection that matches no rows): nothing is out of range, so all four functions must
+    return an empty result (documented dtype for the packers, shape (0,) record array for the unwrappers), not raise."""
+    for prof, layout in PACK_COMBOS:
+        for omit in itertools.product((False, True), repeat=3):
+            drop = [nm for nm, o in zip(('rerun', 'skyversion', 'firstfield'), omit) if o]
+            case = {'fn': 'objid', 'args': {name: [] for name in OBJ_NAMES if name not in drop}, 'tag': 'zero-length'}
+            if prof != 'i8':
+                case['dtype'] = prof
+            if layout != 'native':
+                case['layout'] = layout
+            _one(acc, case)
+        for kind in (None, 'line', 'index'):
+            args = {name: [] for name in ('plate', 'fiber', 'mjd', 'run2d')}
+            if kind:
+                args[kind] = []
+            case = {'fn': 'specobjid', 'args': args, 'tag': 'zero-length'}
+            if prof != 'i8':
+                case['dtype'] = prof
+            if layout != 'native':
+                case['layout'] = layout
+            _one(acc, case)
+    for form in ('int', 'U', 'S'):
+        for layout in unwrap_layouts(form):
+            extra = {} if layout == 'native' else {'layout': layout}
+            _one(acc, dict({'fn': 'unwrap_objid', 'ids': [], 'form': form, 'tag': 'zero-length'}, **extra))
+            for ri in (False, True):
+                for li in (False, True):
+                    _one(acc, dict({'fn': 'unwrap_specobjid', 'ids': [], 'form': form, 'run2d_integer': ri, 'specLineIndex': li,
+                                    'tag': 'zero-length'}, **extra))
 
 
 def run_task(task):
@@ -1057,6 +1176,8 @@ def run_task(task):
         defaults_task(acc)
     elif k == 'order':
         order_task(acc, task)
+    elif k == 'empty':
+        empty_task(acc)
     else:
         raise ValueError(k)
     return acc
